@@ -724,7 +724,12 @@ def gen_c10(seed, tier):
         if sign and r.chance(0.6):
             kw["sigalg"] = r.pick(SIGALGS)
             kw["digalg"] = r.pick(DIGALGS)
-        g.ev("start", f=f, sp=sp["name"], idp=idp["name"], rb=rb, sign=sign, **kw)
+        kindmsg = r.weighted([("authn_request", 6), ("logout_request", 3), ("attribute_query", 2)])
+        if kindmsg == "authn_request":
+            g.ev("start", f=f, sp=sp["name"], idp=idp["name"], rb=rb, sign=sign, **kw)
+        else:
+            rb = "soap" if kindmsg == "attribute_query" else r.pick(["soap", "post", "redirect"])
+            g.ev("mkreq", f=f, sp=sp["name"], idp=idp["name"], kind=kindmsg, rb=rb, sign=bool(sign), **kw)
         g.tick()
         if clean:
             g.ev("req", f=f)
@@ -754,7 +759,14 @@ def gen_c10(seed, tier):
             o = r.pick([x for x in idps if x is not idp])
             g.ev("req", f=f, to=o["name"])
         elif fk == "other-endpoint":
-            g.ev("req", f=f, via=("sso_post" if rb == "redirect" else "sso_redirect"))
+            if kindmsg == "authn_request":
+                g.ev("req", f=f, via=r.pick(["sso_post" if rb == "redirect" else "sso_redirect",
+                                              "slo_" + rb]))
+            elif kindmsg == "logout_request":
+                others = [b for b in ("soap", "post", "redirect") if b != rb]
+                g.ev("req", f=f, via=r.pick(["slo_" + r.pick(others)] + (["sso_" + rb] if rb != "soap" else ["aa_soap"])))
+            else:
+                g.ev("req", f=f, via="slo_soap")
         elif fk == "truncate":
             g.ev("req", f=f, mut={"k": "truncate", "frac": r.random()}, sub=g.sub())
         elif fk == "b64char":
